@@ -83,8 +83,31 @@ def do_slos(req):
     for c in req:
         U = cplx(c["U"]).astype(np.complex128)
         try:
-            v = calculate_state_vector(U, np.array(c["s"], dtype=int), ((), ()), cfg, conn)
-            out.append({"v": enc(v)})
+            post = c.get("post")
+            pdata = (tuple(post[0]), tuple(post[1])) if post else ((), ())
+            v = calculate_state_vector(U, np.array(c["s"], dtype=int), pdata, cfg, conn)
+            rec = {"v": enc(v)}
+            if post:
+                from piquasso._math.combinatorics import partitions_bounded_k
+
+                rec["basis"] = np.asarray(partitions_bounded_k(
+                    boxes=len(c["s"]), particles=int(sum(c["s"])), constrained_boxes=post[0],
+                    max_per_box=post[1], k_limit=0)).tolist()
+            out.append(rec)
+        except Exception as e:  # noqa: BLE001
+            out.append(err(e))
+    return out
+
+
+def do_pbk(req):
+    from piquasso._math.combinatorics import partitions_bounded_k
+
+    out = []
+    for c in req:
+        try:
+            r = partitions_bounded_k(boxes=c["boxes"], particles=c["particles"], constrained_boxes=c["modes"],
+                                     max_per_box=c["maxs"], k_limit=c["klimit"])
+            out.append({"rows": np.asarray(r).tolist()})
         except Exception as e:  # noqa: BLE001
             out.append(err(e))
     return out
@@ -194,7 +217,7 @@ def main():
 
     req = json.load(sys.stdin)
     out = {"timing": {}}
-    for key, fn in (("tables", do_tables), ("slos", do_slos), ("passive", do_passive), ("active", do_active)):
+    for key, fn in (("tables", do_tables), ("slos", do_slos), ("pbk", do_pbk), ("passive", do_passive), ("active", do_active)):
         if key in req:
             t0 = time.time()
             out[key] = fn(req[key])
